@@ -516,6 +516,7 @@ func (p *Parent) run() int {
 	}
 	exit := 0
 	replayDir := filepath.Join(p.Root, "replays", p.Check.ID)
+	os.RemoveAll(replayDir)
 	shown := 0
 	for _, f := range unmatched {
 		exit = 1
